@@ -1,6 +1,6 @@
 """C10: happy-eyeballs connect succeeds iff some candidate would; first success wins (level: other)."""
 import re
-from core import norm, L_call, L_variant, arms, assigns_to_return, closure_arg_of, sig, const_of, awaits, CallSite
+from core import norm, L_call, L_variant, arms, assigns_to_return, closure_arg_of, sig, const_of, awaits, CallSite, L_opt, carriers
 from mir import op_place
 
 META = {
@@ -29,7 +29,7 @@ def aw_of(f, name):
 
 
 def C10_1(ctx, facts):
-    f = facts.fn(PA)
+    f = facts.unit(facts.fn(PA), expand=True)
     ctx.touched(f)
     oks = [(b, s) for (b, i, s) in f.aggregates("Result", "Ok") if True]
     oks = [(b, s) for (b, s) in oks if any(st is s for (k, bb, st) in assigns_to_return(f, f.live) if k == "stmt")]
@@ -46,7 +46,7 @@ def C10_1(ctx, facts):
         if lab is not None and lab.kind == "variant" and lab.variants == {"Ok"} and (lab.adt or "").endswith("happy_eyeballs::Eyeball"):
             hit = [p for p in polls if p in f.reach([b])]
             ctx.check(not hit, "process_all|first-success-returns", "on the first Eyeball::Ok the function returns without awaiting anything else", "after a success another await is reachable", f.where(a))
-    j = facts.fn(JN)
+    j = facts.unit(facts.fn(JN), expand=True)
     ctx.touched(j)
     eo = j.aggregates("happy_eyeballs::Eyeball", "Ok")
     ctx.floor("join_next|Eyeball::Ok", len(eo), 1, "constructions of Eyeball::Ok")
@@ -60,7 +60,7 @@ def C10_1(ctx, facts):
 
 
 def C10_2_3(ctx, facts):
-    f = facts.fn(PA)
+    f = facts.unit(facts.fn(PA), expand=True)
     errs = []
     for (k, b, x) in assigns_to_return(f, f.live):
         if k == "call":
@@ -90,7 +90,7 @@ def C10_2_3(ctx, facts):
         if lab is not None and lab.kind == "variant" and lab.variants == {"Error"} and (lab.adt or "").endswith("happy_eyeballs::Eyeball"):
             rets = [r for r in f.returns if f.path(b, [r], avoid_blocks={x["future"].bb for x in jn + jt}) is not None]
             ctx.check(not rets, "process_all|error-continues", "a failed attempt never ends the procedure by itself (the loop continues)", "an attempt's error returns from process_all", f.where(a))
-    j = facts.fn(JN)
+    j = facts.unit(facts.fn(JN), expand=True)
     ex = j.aggregates("happy_eyeballs::Eyeball", "Exhausted")
     ctx.floor("join_next|Exhausted", len(ex), 1, "constructions of Eyeball::Exhausted")
     for (b, i, s) in ex:
@@ -104,7 +104,7 @@ def C10_2_3(ctx, facts):
 
 
 def C10_4(ctx, facts):
-    j = facts.fn(JN)
+    j = facts.unit(facts.fn(JN), expand=True)
     stores = []
     for b in sorted(j.live):
         for s in j.stmts(b):
@@ -114,22 +114,41 @@ def C10_4(ctx, facts):
     for (b, s) in stores:
         g, w = j.guarded(b, L_call(j, ("std::option::Option::is_none", "core::option::Option::is_none"), True))
         ctx.check(g, "join_next|first-error-kept", "self.error is written only while it is still None: the first failure observed is the one reported", "a later error can overwrite the first one", j.where(b), j.path_desc(w))
-    f = facts.fn(PA)
+    f = facts.unit(facts.fn(PA), expand=True)
     np = f.aggregates("happy_eyeballs::HappyEyeballsError", "NoProgress")
     ctx.floor("process_all|NoProgress", len(np), 1, "NoProgress constructions")
-    uo = [c for c in f.calls() if c.matches(r"Option.*::unwrap_or$") and "Result<" in (c.t.get("argtys") or [""])[0]]
-    for c in uo:
-        r0 = f.roots(c.args[0])
-        r1 = f.roots(c.args[1], through_calls=False)
-        ok = any(r.kind == "call" and r.site.is_("std::option::Option::take", "core::option::Option::take") for r in r0) and any(r.kind == "agg" and r.desc.endswith("NoProgress") for r in r1)
-        ctx.check(ok, "process_all|error-or-NoProgress", "the failure reported is self.error.take() (the first error) or NoProgress when there was none", "failure value roots %s / %s" % (sorted(map(repr, sig(r0))), sorted(map(repr, r1))), c.where())
-    ctx.floor("process_all|unwrap_or", len(uo), 1, "error.take().map(Err).unwrap_or(Err(NoProgress))")
-    other_np = [g.nkey for g in facts.fns.values() if g.key != f.key and g.nkey.startswith("happy_eyeballs") and g.aggregates("happy_eyeballs::HappyEyeballsError", "NoProgress")]
+    # evaluated on the expanded unit: `error.take().map(Err).unwrap_or(Err(NoProgress))`, an explicit match and a helper
+    # function are the same control flow - NoProgress only on the None edge of self.error.take(), the stored error otherwise
+    took = lambda rr: any(r.kind == "call" and r.site.is_("std::option::Option::take", "core::option::Option::take") and
+                          any(x.kind == "arg" and "error" in x.desc for x in f.roots(r.site.args[0])) for r in rr)
+    none_e = f.edges_where(L_opt(f, False, took))
+    some_e = f.edges_where(L_opt(f, True, took))
+    ctx.floor("process_all|error-take-test", min(len(none_e), len(some_e)), 1, "both edges of the test of self.error.take()")
+    for (bb, i, st) in np:
+        g, w = False, None
+        for (cb, cl) in carriers(f, bb, st["p"]["l"]):
+            g2, w2 = f.guarded(cb, L_opt(f, False, took))
+            g = g or g2
+            w = w or w2
+        ctx.check(g, "process_all|NoProgress-only-without-error", "NoProgress is reported only when no attempt error was stored (None edge of self.error.take())",
+                  "NoProgress can be reported although an attempt failed with an error", f.where(bb), f.path_desc(w))
+    npb = {bb for (bb, i, st) in np}
+    for (x, y) in some_e:
+        p_ = f.path(y, list(npb))
+        ctx.check(p_ is None, "process_all|error-or-NoProgress", "when an error was stored, the failure reported is that error (the first one observed), never NoProgress",
+                  "a stored error can be replaced by NoProgress", f.where(x), f.path_desc(p_))
+        rets = [(k, bb, v) for (k, bb, v) in assigns_to_return(f, f.reach([y]))]
+        ok = any(any(r.kind == "call" and r.site.is_("std::option::Option::take", "core::option::Option::take") for r in
+                     (f.roots(v["r"]["ops"][0]) if k == "stmt" and v["r"]["k"] == "agg" and v["r"].get("ops") else (f.roots(v["r"]["o"]) if k == "stmt" and v["r"]["k"] == "use" else set())))
+                 for (k, bb, v) in rets)
+        ctx.check(ok, "process_all|stored-error-returned", "the value returned then carries the taken error", "the stored error is not what is returned", f.where(x))
+    home = {f.nkey} | {norm(k) for k in f.inlined}
+    other_np = [g.nkey for g in facts.fns.values() if g.nkey not in home and g.nkey.startswith("happy_eyeballs") and g.aggregates("happy_eyeballs::HappyEyeballsError", "NoProgress")]
     ctx.check(not other_np, "NoProgress|single-source", "NoProgress is produced nowhere else", "NoProgress also produced in %s" % other_np)
 
 
 def C10_5(ctx, facts):
-    f = facts.fn(FI)
+    f = facts.unit(facts.fn(FI), expand=True)
     ctx.touched(f)
     to = [c for c in f.calls() if c.is_("tokio::time::timeout", "tokio::time::timeout::timeout")]
     pa = f.calls("happy_eyeballs::EyeballSet::process_all")
